@@ -65,13 +65,17 @@ fn main() {
 	panic::set_hook(Box::new(|_| {}));
 	let args: Vec<String> = std::env::args().collect();
 	match args.get(1).map(|s| s.as_str()) {
-		Some("run") => {
+		Some(mode @ ("run" | "interactive")) => {
+			// `interactive`: answer and flush line by line (used by the binary-search oracles)
 			let stdin = io::stdin();
 			let stdout = io::stdout();
 			let mut out = io::BufWriter::new(stdout.lock());
 			for line in stdin.lock().lines() {
 				let line = line.unwrap();
 				let _ = writeln!(out, "{}", answer(&line));
+				if mode == "interactive" {
+					let _ = out.flush();
+				}
 			}
 			let _ = out.flush();
 		}
